@@ -269,7 +269,9 @@ Clauses(S, P, hasPrev, TauSet) ==   \* S = this solve's observation, P = previou
                    THEN {<<"C13", "resolve-differs-from-a-newly-built-equivalent-model", prev.retv - S.retv>>} ELSE {}
       PartSet(X) == {<<X.items[X.sent[k]].sense, DE(X.items[X.sent[k]].e[1]).G>> :
                         k \in {j \in 1..Len(X.sent) : X.items[X.sent[j]].origin = "part"}}
-      c13f == IF hasPrev /\ S.edit = "fresh-twin" /\ prev.np = np /\ PartSet(prev) # PartSet(S)
+      \* (compared by the number of DISTINCT rows: classes that create a stationary point at solve time number their
+      \*  leaf points differently in the two models, and the accumulation of duplicates over solves is finding F4)
+      c13f == IF hasPrev /\ S.edit = "fresh-twin" /\ prev.np = np /\ Cardinality(PartSet(prev)) # Cardinality(PartSet(S))
               THEN {<<"C13", "resolve-sends-other-partition-constraints-than-a-newly-built-equivalent-model",
                       Cardinality(PartSet(S)) - Cardinality(PartSet(prev))>>} ELSE {}
       c13d == IF hasPrev /\ S.edit # "fresh-twin" /\ ~solved /\ \E k \in 1..Len(S.held) : S.held[k].out = "ok"
